@@ -238,8 +238,15 @@ type nnsObs struct {
 	notifs []nnsNotif
 	vec    []string // reader results (Coq vals)
 	vals   []nnsVal // the same, parsed
-	rv     nnsVal   // parsed return value
-	fault  string
+	// the same readers evaluated on the state BEFORE the op, in a header with
+	// the op's own timestamp: every before/after rule of the monitors compares
+	// two states at ONE instant, so the passage of time between two blocks
+	// (expiry of a name or of an enclosing name) is never mistaken for an
+	// effect of the op
+	preVec  []string
+	preVals []nnsVal
+	rv      nnsVal // parsed return value
+	fault   string
 }
 
 func (n *nnsEnv) itemAddr(it stackitem.Item) int {
@@ -483,9 +490,23 @@ func (l nnsLit) ctx(o nnsOp) string {
 }
 
 // exec runs the op and the readers.
+func (n *nnsEnv) readVec(l nnsLit, ts uint64, readers []nnsOp) (vec []string, vals []nnsVal) {
+	for _, rd := range readers {
+		it, ok := n.readAt(ts, rd)
+		v := nnsVal{}
+		if ok {
+			v = n.parse(rd.Kind, it)
+		}
+		vals = append(vals, v)
+		vec = append(vec, l.render(rd.Kind, v))
+	}
+	return
+}
+
 func (n *nnsEnv) exec(l nnsLit, o nnsOp, readers []nnsOp) nnsObs {
+	preVec, preVals := n.readVec(l, o.T, readers) // state before the op, at the op's instant
 	r := n.invoke(o)
-	ob := nnsObs{halt: r.Halt, fault: r.Fault}
+	ob := nnsObs{halt: r.Halt, fault: r.Fault, preVec: preVec, preVals: preVals}
 	if !r.Halt {
 		ob.ret = VFault
 	} else {
@@ -523,15 +544,7 @@ func (n *nnsEnv) exec(l nnsLit, o nnsOp, readers []nnsOp) nnsObs {
 			ob.notifs = append(ob.notifs, nnsNotif{kind: 2, name: string(ItemBytes(items[0])), old: ItemInt(items[1]), new: ItemInt(items[2])})
 		}
 	}
-	for _, rd := range readers {
-		it, ok := n.readAt(o.T, rd)
-		v := nnsVal{}
-		if ok {
-			v = n.parse(rd.Kind, it)
-		}
-		ob.vals = append(ob.vals, v)
-		ob.vec = append(ob.vec, l.render(rd.Kind, v))
-	}
+	ob.vec, ob.vals = n.readVec(l, o.T, readers)
 	return ob
 }
 
@@ -1404,6 +1417,20 @@ func nnsCorpus(prop string) [][]nnsOp {
 		add(nnsOp{Kind: "updateSOA", Name: "a.com", Email: "e@x.io", Refresh: -5, Retry: 6, Expire: 7, TTL: 8}, pU0)
 		rec("addRecord", "a.com", tTXT, 0, "t1", pU0)
 		out = append(out, h)
+		// 8: a record method exactly at the expiration instant of its name: the name
+		// (and its parent) drop out, the token becomes a.com, whose owner may act;
+		// the SOA of w.x.a.com becomes unreachable by expiry, not by deleteRecords
+		// (this history once raised a false alarm of the monitor)
+		start()
+		reg("a.com", pU1, 9*Y, pU1)
+		reg("x.a.com", pU2, 3600, pU1, pU2)                // t=4, exp 3600004
+		reg("w.x.a.com", pCmt, 3600, pU2, pCmt)            // t=5, exp 3600005
+		rec("addRecord", "w.x.a.com", tTXT, 0, "t1", pCmt) // under its own token
+		at(3600004)
+		tick()
+		rec("deleteRecords", "w.x.a.com", tTXT, 0, "", pU1) // t = exp: token is a.com now
+		rec("addRecord", "w.x.a.com", tTXT, 0, "t2", pU1)
+		out = append(out, h)
 		// 7: expiry hides the records, re-registration by somebody else shows them again
 		start()
 		reg("a.com", pU0, 2, pU0) // exp 2003
@@ -1432,8 +1459,6 @@ type nnsMon struct {
 	recs    map[string][]string // token|name|type byte -> data list (spec of C12)
 	dupBy   map[string]bool     // keys whose duplicate was made by setRecord (F14)
 	anyRec  bool
-	prev    *nnsObs
-	prevT   uint64
 	hist    []string
 	deepSub int
 }
@@ -1565,21 +1590,12 @@ func (m *nnsMon) step(o nnsOp, ob *nnsObs) {
 	if !effect && len(ob.notifs) != 0 {
 		m.violate("%s: refused/failed/safe call emitted notifications", o.String())
 	}
-	if !effect && m.prev != nil {
+	if !effect {
+		// same instant, no effect: every safe method must answer exactly as before
+		// (value or fault alike)
 		for i, r := range m.readers {
-			a, b := m.prev.vals[i], ob.vals[i]
-			switch r.Kind {
-			case "totalSupply", "tokens", "roots", "getPrice", "balanceOf", "tokensOf":
-				if m.prev.vec[i] != ob.vec[i] {
-					m.violate("%s without effect changed %s", o.String(), r.Kind)
-				}
-			case "properties", "ownerOf", "getAllRecords", "getRecords":
-				if (r.Kind == "getAllRecords" || r.Kind == "getRecords") && m.book.token(r.Name, m.prevT) != m.book.token(r.Name, now) {
-					continue // the passage of time moved the name under another token
-				}
-				if a.ok && b.ok && m.prev.vec[i] != ob.vec[i] {
-					m.violate("%s without effect changed %s(%s)", o.String(), r.Kind, r.Name)
-				}
+			if ob.preVec[i] != ob.vec[i] {
+				m.violate("%s without effect changed %s(%s,%d,%d): %s -> %s", o.String(), r.Kind, r.Name, r.Typ, r.Owner, ob.preVec[i], ob.vec[i])
 			}
 		}
 	}
@@ -1623,20 +1639,24 @@ func (m *nnsMon) step(o nnsOp, ob *nnsObs) {
 				m.violate("C12: setRecord succeeded on an id the spec does not have: %s", o.String())
 			}
 		case "deleteRecords":
-			if m.prev != nil {
-				soa := func(ob *nnsObs) int {
+			// "never SOA", judged at one instant: no name observed loses an SOA
+			// record between the state before the op (read at the op's
+			// timestamp) and the state after it
+			for i, r := range m.readers {
+				if r.Kind != "getAllRecords" {
+					continue
+				}
+				cnt := func(v nnsVal) int {
 					n := 0
-					if v, ok := m.rd(ob, "getAllRecords", o.Name, 0); ok && v.ok {
-						for _, rc := range v.recs {
-							if rc[1] == "6" {
-								n++
-							}
+					for _, rc := range v.recs {
+						if rc[1] == "6" {
+							n++
 						}
 					}
 					return n
 				}
-				if soa(ob) < soa(m.prev) {
-					m.violate("C12: deleteRecords removed an SOA record: %s", o.String())
+				if ob.preVals[i].ok && (!ob.vals[i].ok || cnt(ob.vals[i]) < cnt(ob.preVals[i])) {
+					m.violate("C12: deleteRecords removed an SOA record of %s: %s", r.Name, o.String())
 				}
 			}
 			k := rkeyOf(tokPre, o.Name, o.Typ)
@@ -1863,8 +1883,6 @@ func (m *nnsMon) step(o nnsOp, ob *nnsObs) {
 			}
 		}
 	}
-	m.prev = ob
-	m.prevT = now
 }
 
 // ---------------------------------------------------------------------------
